@@ -394,6 +394,26 @@ def check_c09(graph, result):
             return {"what": "physical line longer than 80 characters incl. newline", "length": len(ln), "line": ln, "input": _graph_json(graph)}
         if "\r" in ln:
             return {"what": "stray CR"}
+    # observability: logical line lengths, wraps per logical line, character classes around each wrap
+    if ctx is not None:
+        logical, wraps = "", 0
+        for k, ln in enumerate(lines[4:-1], start=4):
+            body = ln[7:]
+            if len(ln) == 79 and ln.endswith("-") and k + 1 < len(lines) - 1 and lines[k + 1].startswith("M  V30 "):
+                before, after = ln[-2], lines[k + 1][7:8]
+                cls = ("after-minus" if before == "-" else "before-blank" if after == " " else "after-blank" if before == " "
+                       else "in-number" if (before.isdigit() or before == ".") and (after.isdigit() or after == ".")
+                       else "digit-then-dot-or-dot-then-digit" if before in ".0123456789" and after in ".0123456789"
+                       else "in-keyword" if before.isalpha() and (after.isalpha() or after == "=") else "after-equals" if before == "=" else "other")
+                ctx.seen("wrap_class", cls)
+                logical += body[:-1]
+                wraps += 1
+                continue
+            logical += body
+            if len(logical) >= 66:
+                ctx.seen("logical_line_len", len(logical))
+            ctx.seen("wraps_per_logical_line", min(wraps, 3))
+            logical, wraps = "", 0
     n, ne = graph.number_of_nodes(), graph.number_of_edges()
     if len(lines) < 9 or lines[3].rstrip().split(" ")[-1] != "V3000" or lines[-1] != "M  END" or lines[4] != "M  V30 BEGIN CTAB" or lines[-2] != "M  V30 END CTAB":
         return {"what": "malformed frame", "head": lines[:6], "tail": lines[-2:]}
